@@ -1,0 +1,40 @@
+//! Verification hooks, compiled only with the `verif-hooks` feature.
+//!
+//! Two things live here: named probe points (`hit`) that an external harness
+//! can observe or block on to force a chosen interleaving or crash point, and
+//! re-exports of crate-private items the harness drives directly. Nothing in
+//! this module changes behaviour unless a harness installs a callback.
+
+use std::sync::OnceLock;
+
+type Callback = Box<dyn Fn(&'static str) + Send + Sync>;
+
+static CALLBACK: OnceLock<Callback> = OnceLock::new();
+
+/// Install the process-wide probe callback. Returns `false` if one was already
+/// installed.
+pub fn install(cb: impl Fn(&'static str) + Send + Sync + 'static) -> bool {
+    CALLBACK.set(Box::new(cb)).is_ok()
+}
+
+/// A named probe point. No-op unless a callback is installed.
+#[inline]
+pub fn hit(point: &'static str) {
+    if let Some(cb) = CALLBACK.get() {
+        cb(point);
+    }
+}
+
+/// Crate-private items driven directly by the verification harness.
+pub mod export {
+    use crate::message::Message;
+    use std::borrow::Cow;
+
+    pub fn stamp_response_query(response: &mut Message, request_query: Cow<[u8]>) {
+        crate::message::stamp_response_query(response, request_query)
+    }
+
+    pub fn response_echo_query<'a>(response: &'a Message, request_query: &'a [u8]) -> &'a [u8] {
+        crate::message::response_echo_query(response, request_query)
+    }
+}
